@@ -2,15 +2,22 @@
 C08 — property theorems for the mutex protocols (statements only; lemmas in Proofs/C08*.lean).
 
 All theorems quantify over EVERY set of thread programs (any number of threads, any operation sequences) and EVERY
-schedule `sched : List Tid` of the atomic-access-level model (`Model/C08.lean`), i.e. every sequentially consistent
-interleaving of the accesses to the lock word.  `cnt ph ths` = number of threads in ghost phase `ph`.
+schedule `sched : List Tid` of the atomic-access-level models, i.e. every sequentially consistent interleaving of the
+accesses, unless stated otherwise:
+  spin_rw_mutex, spin_mutex   Model/C08.lean   (`cnt ph ths` = number of threads in ghost phase `ph`)
+  queuing_mutex               Model/C08Q.lean  `Mcs`     (ghost queue appended at the q_tail exchange, popped at the hand-off)
+  queuing_rw_mutex            Model/C08Q.lean  `QRwSpec` — SPECIFICATION machine only (the node protocol is not modelled)
+  mutex, rw_mutex             Model/C08S.lean  `Slp.Mx`, `Slp.Rw`: word protocol + sleep/wake hand-shake through the
+                              address_waiter monitor (its linearisation points), any spin budget, any peek-oracle bits
+  rw_orders_publish           over the memory-order table regenerated from the E-SHIM traces (Generated/C08.lean)
+All theorems live directly in namespace TbbVerif.C08 (the audit reads the `theorem`s of this file under that name).
 -/
 import TbbVerif.Proofs.C08
 import TbbVerif.Proofs.C08Spin
 import TbbVerif.Proofs.C08Q
 import TbbVerif.Proofs.C08QRw
 import TbbVerif.Proofs.C08SMx
-import TbbVerif.Proofs.C08SRwE
+import TbbVerif.Proofs.C08SRwF
 import TbbVerif.Generated.C08
 
 namespace TbbVerif.C08
@@ -535,21 +542,33 @@ not BUSY; reader: no WRITER and no WRITER_PENDING; upgrader: readers == 1) from 
 on to notify that kind's context (directly, or — after downgrade's fetch_add — at the load that decides it).
 `h1`,`h2` are consequences of the counting invariant in reachable states (the in-place upgrader holds WRITER; a
 sleeping upgrader owns a reader unit and is the only in-place upgrader). -/
-theorem rwm_wake_rules (tid sm : Nat) (s : Word) (m : Slp.Mon) (t : Slp.Rw.Th) (k : Slp.Rw.WKind)
+theorem rw_wake_rules (tid sm : Nat) (s : Word) (m : Slp.Mon) (t : Slp.Rw.Th) (k : Slp.Rw.WKind)
     (h1 : t.pc = .upFin → s.w = true) (h2 : k = .upg → 1 ≤ s.r ∧ t.pc ≠ .upFin)
     (hc : k.cond s = false) (hc' : k.cond (Slp.Rw.stepTh tid sm s m t).1 = true) :
     Slp.Rw.Covers (Slp.Rw.stepTh tid sm s m t).2.2.2.1 k.ctx :=
   Slp.Rw.wake_rules_step tid sm s m t k h1 h2 hc hc'
 
 open Slp.Rw in
-/-- **Wake-up in flight** (all schedules): every thread that a notifier removed from the wait set and that has not
-consumed its wake-up has its semaphore V'ed or a notifier about to V it — no wake-up is lost between the removal
-from the wait set and the sleeper. -/
-theorem rwm_wake_in_flight (progs : List (List Slp.Rw.Op)) (orcs : List (List Bool)) (sm : Nat) (sched : List Tid)
-    (st : Slp.Rw.St) (hst : st = (Slp.Rw.sys progs orcs sm).run sched) : Slp.WakeInFlight st.mon (Slp.Rw.mwOfL st.ths) := by
-  have h : Slp.Rw.Inv st := hst ▸ Slp.Rw.inv_reachable progs orcs sm sched
-  exact h.wake
+/-- **No lost wake-up of tbb::rw_mutex** (all schedules).  In every reachable state:
+(1) a thread that has committed to sleep (its predicate was false), is still in the wait set under its context, and
+    whose wake-up condition holds for the current lock word, is covered by some thread that is about to notify that
+    context (between its releasing access and its flush of the wait set, or at downgrade's WRITER_PENDING load): no
+    thread sleeps on a satisfiable condition with no notifier pending;
+(2) every thread that a notifier removed from the wait set and that has not consumed its wake-up has its semaphore
+    V'ed or a notifier about to V it: the notification reaches the sleeper. -/
+theorem rw_handoff_no_loss (progs : List (List Slp.Rw.Op)) (orcs : List (List Bool)) (sm : Nat) (sched : List Tid)
+    (st : Slp.Rw.St) (hst : st = (Slp.Rw.sys progs orcs sm).run sched) :
+    NoLostWake st ∧ Slp.WakeInFlight st.mon (Slp.Rw.mwOfL st.ths) := by
+  have h := hst ▸ nlw_reachable progs orcs sm sched
+  exact ⟨h.2, h.1.wake⟩
 
+open Slp.Rw in
+/-- non-vacuity: a reader goes to sleep behind a writer (spin budget 1); the writer's unlock notifies everybody
+(no WRITER_PENDING), removes it, V's it; the reader wakes up and takes the lock -/
+example :
+    let st := (Slp.Rw.sys [[.lock, .unlock], [.lockShared, .unlockShared]] [] 1).run
+      [0, 0, 1, 1, 1, 1, 1, 0, 0, 0, 0, 1, 1, 1]
+    st.word.enc = 4 ∧ st.mon.waitset = [] ∧ st.mon.epoch = 1 ∧ st.mon.posted = [] ∧ st.bad = false := by decide
 
 /-! ## memory orders (regenerated from the E-SHIM traces of all lock kinds) -/
 
